@@ -57,7 +57,17 @@ if $builds; then
   if echo "$check_out" | grep -q "^VIOLATION"; then check_exit=1; else check_exit=0; fi
 fi
 python3 - <<PY
-import json
+import json, os, sys
+old = None
+if os.path.exists("$out/result.json"):
+    try: old = json.load(open("$out/result.json"))
+    except Exception: old = None
+if "$applies" != "true" and old and old.get("applies"):
+    # the patch was confirmed against an earlier HEAD and no longer applies (later fix: commits moved
+    # its context): keep the confirmed result, note the HEAD at which re-application failed
+    old["reapply_failed_at"] = "$(git -C /repo rev-parse --short HEAD)"
+    json.dump(old, open("$out/result.json", "w"), indent=1)
+    sys.exit(0)
 json.dump({"seed": "$name", "property": "$prop", "repo_head": "$(git -C /repo rev-parse --short HEAD)", "applies": "$applies" == "true", "builds": "$builds" == "true",
   "suite_passes": "$suite" == "true", "demo_on_clean_repo": "$demo_clean", "demo_with_patch": "$demo_patched",
   "check_cmd": "VERIF_REPO=<worktree with patch> ./check $prop", "check_detects": $check_exit == 1,
